@@ -35,14 +35,33 @@ def main(job_path, out_path):
     jobs = json.load(open(job_path))
     if os.environ.get("VERIF_JOB_ORDER") == "reverse":
         jobs = jobs[::-1]
+    def seed_of(job):
+        k = job["seed"]
+        return {"int": k, "str": "release-%d" % k, "bytes": b"release-%d" % k, "float": k + 0.5}[job.get("seed_kind", "int")]
+
+    def unrelated_work(n):
+        """library use that has nothing to do with the seeded run that follows"""
+        from d42.generation import Generator, RegexGenerator
+        rnd = Random()
+        if n % 3 == 0:
+            RegexGenerator(rnd, alphabet={"digits": "abcdef", "word": "-", "letters": "xyz"})
+        elif n % 3 == 1:
+            Generator(rnd, RegexGenerator(rnd, max_repeat=3))
+            d42.validate(d42.schema.list(d42.schema.int), [1, "a"])
+        else:
+            d42.substitute(d42.schema.dict({"a": d42.schema.int}), {"a": 1})
+            repr(d42.schema.str.regex(r"[^a]\d"))
+
     results = []
     for job in jobs:
         schemas = [(am.g_schema(s["a"]) + am.g_schema(s["b"])) if "x" in s else am.g_schema(s)
                    for s in job["seq"]]
         runs = []
         for rep in range(2):
+            if rep == 1:
+                unrelated_work(job["id"])
             del draws[:]
-            Random().set_seed(job["seed"])
+            Random().set_seed(seed_of(job))
             vals = []
             for s in schemas:
                 try:
